@@ -421,13 +421,15 @@ def three_way(ctx):
             continue
         ps = fam['params'](ctx.rng, 'quick')
         for p in ps[:12 if ctx.tier == 'quick' else 60]:
+            sub = os.path.join(tmp, 'j%d' % len(jobs))      # one directory per job: `cli` writes graph files with fixed names
+            os.makedirs(sub, exist_ok=True)
             try:
-                argv = fam['cli'](p, tmp)
+                argv = fam['cli'](p, sub)
             except Exception:
                 argv = None
             if argv is None:
                 continue
-            jobs.append((fam, p, [str(a) for a in argv], fam['request'](p)))
+            jobs.append((fam, p, [str(a) for a in argv], fam.get('request_spec', fam['request'])(p)))
     replies = ctx.model.batch([j[3] for j in jobs])
     for (fam, p, argv, req), rep in zip(jobs, replies):
         a = outcome(lambda: cnfgen_cli(['cnfgen'] + argv, mode='formula'))
